@@ -229,7 +229,36 @@ func mutations(r *gen.Rand, v *ref.Value) map[string]*ref.Value {
 	return out
 }
 
+// c02NonObjects: whatever SignJSON returns without an error verifies - also for a text that is no JSON object, where
+// the only answer that can verify is an error.
+func c02NonObjects(c *mon.Ctx) {
+	if c.Shard != 0 {
+		return
+	}
+	id := gen.NewIdentity(c.RandShared("non-object-signer"), "signer.example", "ed25519:1")
+	for _, text := range []string{"null", " null\n", "[]", "[1]", "1", "-0", `"x"`, "true", "false", ""} {
+		c.Case("sign:non-object", map[string]any{"text": text}, func() {
+			c.Nontrivial("non-object|" + text)
+			var out []byte
+			var err error
+			site, msg, pan := mon.Guard(func() { out, err = gmsl.SignJSON(id.Server, gmsl.KeyID(id.KeyID), id.Priv, []byte(text)) })
+			c.Count("non_object_sign_calls")
+			if pan {
+				c.Failf("sign:panic:"+site, "SignJSON(%q) panics: %s", text, msg)
+				return
+			}
+			if err != nil {
+				return
+			}
+			if verr := gmsl.VerifyJSON(id.Server, gmsl.KeyID(id.KeyID), id.Pub, out); verr != nil {
+				c.Failf("sign:non-object:output-does-not-verify", "SignJSON(%q) returns %s without an error, and VerifyJSON refuses that: %v", text, out, verr)
+			}
+		})
+	}
+}
+
 func runC02(c *mon.Ctx) {
+	c02NonObjects(c)
 	r := c.Rand("objects")
 	sc := gen.Scramble(c.Rand("scramble"))
 	n := c.Scale(1500, 400000)
